@@ -1,7 +1,7 @@
 """C06 — merge/union is equivalent to having processed both streams (lattice census, guards, transfer loops)."""
 from ..paths import PathEnumerator
 from ..guards import fv
-from ..terms import TermBuilder, fmt, mk, const, subterms, elem_of, erase_param_names, swap_self_other, linear_eq
+from ..terms import TermBuilder, fmt, mk, const, subterms, elem_of, erase_param_names, swap_self_other, linear_eq, linear
 from .common import (SELF, self_field, methods_of, has_self_receiver, all_writes, rng_fields, config_fields, symmetric_guards,
                      fields_mentioned, INTERIOR_MUT, loop_exits_only_on_exhaustion)
 
@@ -384,6 +384,50 @@ def union_transfer_rules(ctx):
                         st_ = [z for z in sum_[2] if z != o_][0]
                         if any(y == st_ for _, y in slots):
                             covered = True
+        # the walk may end only where the cluster ends: at the first slot that is not shifted, when the cursor is back at the cluster
+        # start, or by the failing re-insertion; a step counter may cap it only at a bound the ring walk cannot reach
+        for body_fn, tb, bi, t in calls:
+            a = [tb.operand(x_, bi, len(body_fn.blocks[bi].stmts)) for x_ in t.args]
+            x = a[2][2][1] if a[2][0] == "call" and len(a[2][2]) == 2 else None
+            x = x[2] if x is not None and x[0] == "cast" else x
+            cur_ = x if x is not None and x[0] == "loopvar" else (ring_succ(x) if x is not None else None)
+            if cur_ is None or cur_[0] != "loopvar" or not isinstance(cur_[1], int):
+                continue
+            head_ = cur_[2]
+            body_ = body_fn.natural_loop(head_)
+            for b_ in sorted(body_):
+                for s_ in body_fn.succs(b_):
+                    if s_ in body_ or not body_fn.can_return(s_):
+                        continue
+                    ec = walk_edge_condition(body_fn, tb, b_, s_)
+                    if ec is None:
+                        if body_fn.blocks[b_].term.k in ("goto", "drop", "call"):
+                            continue
+                        probs.append("the cluster walk has an exit that is not understood (bb%d)" % b_)
+                        continue
+                    c_, tr_ = ec
+                    subs_ = list(subterms(c_))
+                    if any(z[0] == "call" and z[1].endswith("insert_internal") for z in subs_):
+                        continue                                         # the failing re-insertion
+                    if tr_ is False and any(z[0] == "index" and z[1] == ("field", otherp, "is_shifted") for z in subs_) or \
+                            (tr_ is False and c_[0] == "call" and c_[1].rsplit("::", 1)[-1] in ("contains", "get", "index") and c_[2] and c_[2][0] == ("field", otherp, "is_shifted")):
+                        continue                                         # the first slot that is not shifted ends the cluster
+                    if c_[0] == "op" and c_[1] in ("Ne", "Eq") and tr_ is (c_[1] == "Eq") and (cur_ in c_[2] or any(ring_succ(z) == cur_ for z in c_[2])):
+                        continue                                         # the cursor is back at the cluster start
+                    okcap = False
+                    if c_[0] == "op" and c_[1] in ("Lt", "Le") and tr_ is False and c_[2][0][0] == "loopvar" and isinstance(c_[2][0][1], int) and c_[2][0][2] == head_:
+                        cnt_ = c_[2][0]
+                        i0_, up_ = tb.loop_init(cnt_[1], cnt_[2]), tb.loop_update(cnt_[1], cnt_[2])
+                        B_ = c_[2][1]
+                        if i0_ is not None and i0_[0] == "const" and up_ == mk("Add", cnt_, const(1)):
+                            # evaluated with counter = c0 + t at step t; the ring test lets t reach L - 2 at most: never binding iff
+                            # c0 + L - 2 < B (for `<`) / <= B (for `<=`)
+                            for L_ in (("call", "fixedbitset::FixedBitSet::len", (("field", otherp, "is_occupied"),)), ("call", "fixedbitset::FixedBitSet::len", (("field", selfp_, "is_occupied"),))):
+                                at_, cc_ = linear(mk("Sub", B_, mk("Add", L_, const(i0_[1] - 2))))
+                                if not at_ and (cc_ > 0 if c_[1] == "Lt" else cc_ >= 0):
+                                    okcap = True
+                    if not okcap:
+                        probs.append("the cluster walk can stop on `%s` before the cluster ends (slots of the cluster are not carried over)" % fmt(c_)[:120])
         if calls and not covered and not probs:
             probs.append("the re-insertion sites do not cover the cluster start and every following slot of the cluster (slots read: %s)" % ", ".join(fmt(y)[:60] for _, y in slots))
         ctx.check(1 <= len(calls) <= 2 and not probs, "R06-quotient-transfer", qu.key, qu, "the re-insertion site(s) take the remainder from other.remainders at the slot being visited: the cluster start and every slot of the walk",
@@ -464,3 +508,23 @@ def loop_exits_only_on_exhaustion_or_err(fn, head):
                 continue
             return False
     return True
+
+
+def walk_edge_condition(fn, tb, b, s):
+    """(condition term, truth) under which control leaves block b for s, for a switch terminator; None otherwise"""
+    t = fn.blocks[b].term
+    if t.k != "switch":
+        return None
+    arms = [(int(v), bb) for v, bb in t.j["arms"]]
+    vals = [v for v, bb in arms if bb == s]
+    other = t.j["otherwise"]
+    cond = tb.operand(t.discr, b, len(fn.blocks[b].stmts))
+    if t.j.get("discr_ty") == "bool":
+        if vals == [0] and other != s:
+            return (cond, False)
+        if (not vals and other == s) or vals == [1]:
+            return (cond, True)
+        return None
+    if len(vals) == 1 and other != s:
+        return (mk("Eq", cond, const(vals[0])), True)
+    return (cond, None)
